@@ -287,6 +287,57 @@ func RunC11(c *Ctx) error {
 		return Harnessf("observation runs: %v", err)
 	}
 
+	// Pass 4 (only if gocc has go statements): the uninstrumented binary built with
+	// the race detector, real goroutines on 16 CPUs.  The cooperative scheduler
+	// decides interleavings at yield points; what it cannot produce is two
+	// goroutines inside the same unsynchronised access at the same time (a
+	// "concurrent map writes" crash).  A generator with a data race cannot promise
+	// an outcome independent of scheduling, so a report is a violation.
+	type rjob struct {
+		ci  int
+		res *engine.Result
+	}
+	var rjobs []*rjob
+	if g.Race != "" {
+		n := 3
+		if c.Tier == "thorough" {
+			n = 12
+		}
+		for ci := range cfgs {
+			for k := 0; k < n; k++ {
+				rjobs = append(rjobs, &rjob{ci: ci})
+			}
+		}
+		err = c.ParallelDo(len(rjobs), func(w, i int) error {
+			cf := cfgs[rjobs[i].ci]
+			gc := cases[cf.gi]
+			spec := engine.Spec{GrammarID: gc.ID, GrammarText: gc.Text, GrammarFile: gc.File, Flags: cf.flags, GOMAXPROCS: 16, RaceLog: true}
+			r, err := workers[w].Exec(g.Race, &spec, timeout)
+			if err != nil {
+				return err
+			}
+			rjobs[i].res = r
+			return nil
+		})
+		if err != nil {
+			return Harnessf("race-build observation runs: %v", err)
+		}
+		for _, rj := range rjobs {
+			cf := cfgs[rj.ci]
+			gc := cases[cf.gi]
+			spec := engine.Spec{GrammarID: gc.ID, GrammarText: gc.Text, GrammarFile: gc.File, Flags: cf.flags, GOMAXPROCS: 16, RaceLog: true}
+			if strings.Contains(rj.res.RaceText, "DATA RACE") {
+				c.Report(&Violation{Class: "data-race-in-generator", Key: map[string]string{"grammar": gc.ID},
+					Detail: fmt.Sprintf("%s %v: gocc built with the race detector reports an unsynchronised access between its own goroutines (its outcome cannot be independent of scheduling): %s", gc.ID, cf.flags, oneLine(clipStr(rj.res.RaceText, 900), 900)),
+					Plan:   c11Replay{Spec: spec}})
+			} else if d := c11Compare(cf.ref, rj.res); d != "" && rj.res.Exit != 66 {
+				c.Report(&Violation{Class: "real-binary-rerun-differs", Key: map[string]string{"grammar": gc.ID},
+					Detail: fmt.Sprintf("race-instrumented gocc, GOMAXPROCS=16, %s %v: %s", gc.ID, cf.flags, d), Plan: c11Replay{Spec: spec}})
+			}
+		}
+		c.Logf("%d runs of the race-instrumented real binary (gocc has go statements)", len(rjobs))
+	}
+
 	// Judge.
 	evals := 0
 	distinct := map[string]bool{}
@@ -355,6 +406,7 @@ func RunC11(c *Ctx) error {
 		"samples":                      samples,
 		"simulated_runs":               evals,
 		"observation_runs_real_binary": obsRuns,
+		"race_build_observation_runs":  len(rjobs),
 		"ticks_simulated":              ticks,
 		"configurations":               len(cfgs),
 		"grammars":                     len(cases),
@@ -472,6 +524,24 @@ func c11Replay1(c *Ctx, g *sut.Gocc, w *engine.Worker) error {
 	}
 	spec := v.Plan.Spec
 	bin := g.Sim
+	if spec.RaceLog {
+		if g.Race == "" {
+			c.Logf("replay: the tree has no go statements any more; nothing to observe")
+			return nil
+		}
+		for i := 0; i < 30; i++ {
+			r, err := w.Exec(g.Race, &spec, 120*time.Second)
+			if err != nil {
+				return Harnessf("%v", err)
+			}
+			if strings.Contains(r.RaceText, "DATA RACE") {
+				c.Report(&Violation{Class: "data-race-in-generator", Key: map[string]string{"grammar": spec.GrammarID}, Detail: oneLine(clipStr(r.RaceText, 900), 900), Plan: v.Plan})
+				return nil
+			}
+		}
+		c.Logf("replay did not reproduce a race report in 30 runs")
+		return nil
+	}
 	refSpec := spec
 	if spec.Plan == nil {
 		bin = g.Real
